@@ -33,7 +33,7 @@ SIDE_FILES = ("report.json", "info.tsv", "info.tsv.gz", "rest.txt", "wild.txt", 
 def generate(rng, tier):
     return gen.gen_case(rng, {
         "p_demux": 1.0, "p_combinatorial": 0.4, "p_paired": 0.55, "require_named": True, "force_suffix": " dm={name}",
-        "p_rename": 0.0, "p_untrimmed_opts": 0.5, "p_filters": 0.35, "p_redirect": 0.3, "p_decoy_adapter": 0.5, "p_unknown_name": 0.12, "p_duplicate_adapter": 0.1, "p_same_name": 0.1, "p_case_name": 0.08, "p_quiet": 0.04, "p_debug": 0.03,
+        "p_rename": 0.0, "p_untrimmed_opts": 0.5, "p_filters": 0.35, "p_redirect": 0.3, "p_decoy_adapter": 0.5, "p_unknown_name": 0.12, "p_duplicate_adapter": 0.1, "p_same_name": 0.1, "p_case_name": 0.08, "p_many_adapters": 0.01, "p_quiet": 0.04, "p_debug": 0.03,
         "p_info": 0.1, "p_pair_adapters": 0.1, "p_revcomp": 0.08, "p_minimal_report": 0.05, "times": (1, 3),
     })
 
